@@ -904,7 +904,7 @@ pub fn check(ctx: &Ctx) {
     let esk_kinds = [EskKind::PkeskV3, EskKind::PkeskV6, EskKind::SkeskV4, EskKind::SkeskV6, EskKind::PkeskUnknown, EskKind::SkeskUnknown];
     let mut seqs: Vec<Vec<EskKind>> = vec![vec![]];
     let mut frontier: Vec<Vec<EskKind>> = vec![vec![]];
-    for _ in 0..if ctx.tier == Tier::Thorough { 4 } else { 3 } {
+    for _ in 0..if ctx.tier == Tier::Thorough { 5 } else { 3 } {
         let mut next = Vec::new();
         for s in &frontier {
             for a in esk_kinds {
@@ -938,7 +938,7 @@ pub fn check(ctx: &Ctx) {
     ctx.run_space(
         "esk_container_alignment",
         true,
-        "all sequences of 0..3 (thorough 0..4) ESKs from {PKESK v3, PKESK v6, SKESK v4, SKESK v6, PKESK/SKESK of unknown version}, every one cryptographically valid for the container's real session key (SKESKs and containers built by the reference model), in front of {SED, SEIPDv1, SEIPDv2} x options {default, legacy, gnupg_aead, both} x presented secret {recipient key, password, session key as V3_4, as V6} x abort_early on/off; expected verdict = RFC 9580 10.3.2.1 table + opt-in policy as an explicit function: a misaligned ESK (or session-key kind) is never used, SED only with enable_legacy",
+        "all sequences of 0..3 (thorough 0..5) ESKs from {PKESK v3, PKESK v6, SKESK v4, SKESK v6, PKESK/SKESK of unknown version}, every one cryptographically valid for the container's real session key (SKESKs and containers built by the reference model), in front of {SED, SEIPDv1, SEIPDv2} x options {default, legacy, gnupg_aead, both} x presented secret {recipient key, password, session key as V3_4, as V6} x abort_early on/off; expected verdict = RFC 9580 10.3.2.1 table + opt-in policy as an explicit function: a misaligned ESK (or session-key kind) is never used, SED only with enable_legacy",
         ac.into_par_iter(),
         run_align,
     );
